@@ -42,7 +42,7 @@ def c01_plan(tier):
     if tier == "quick":
         it = ["B1@0/4"] + ["B1,%s@0/2" % t for t in TOGGLES] + ["B2@0/2"]
         it += ["B1@2^" + L_DEEP, "B1,bloom=1,cache=1,mmap=0,snappy=1@2^" + L_DEEP, "B1@2^" + L_TOMB]
-        it += OVL_Q + ["B1~rwr@0/1^" + L_DEEP] + NOCASE_ITEMS + LONGMAN_ITEMS + [SPLIT_CFG + "@0/2^" + L_SPLIT]
+        it += OVL_Q + ["B1~rwr@0/1^" + L_DEEP, "B1,mof=11@0/2^" + L_DEEP] + NOCASE_ITEMS + LONGMAN_ITEMS + [SPLIT_CFG + "@0/2^" + L_SPLIT]
     else:
         it = ["B1@0/5"] + ["B1,%s@4/3" % t for t in TOGGLES] + ["B2@3/3", "B2,snappy=1,bloom=1@3/2"]
         # full cross product of the boolean toggles at depth 2 (no dedup)
@@ -55,7 +55,7 @@ def c01_plan(tier):
                 it.append("B1,%s@0/2" % ",".join(t))
         it += [NOCASE + "@4/3", NOCASE + "@2^P0.1 F P1.1 F P3.1 F P4.1 F", NOCASE + "@3^P0.1 F D1 F", NOCASE + "@3^P3.1 F P4.2 F D3"] + LONGMAN_ITEMS + ["B1,reuse=1,uni=2@2^" + L_LONGMAN]
         it += [SPLIT_CFG + "@0/3^" + L_SPLIT, SPLIT_CFG + "@0/2^" + L_SPLIT + " R0:5:5"]
-        it += OVL_T + ["B1~rwr@0/2^" + L_DEEP, "B1,cmp=1~rwr@0/2^" + L_OVL, "B1~rwr@3/2"]
+        it += OVL_T + ["B1,mof=11@3^" + L_DEEP, "B1,mof=11,mmap=0@3^" + L_BIG, "B1~rwr@0/2^" + L_DEEP, "B1,cmp=1~rwr@0/2^" + L_OVL, "B1~rwr@3/2"]
         for L in (L_DEEP, L_TOMB, L_SNAP, L_BIG):
             it += ["B1@3^" + L, "B1,bloom=1,cache=1,mmap=0,snappy=1@3^" + L, "B1,cmp=1@2^" + L]
     return plan(it)
@@ -72,14 +72,14 @@ def c06_plan(tier):
 
 def c07_plan(tier):
     if tier == "quick":
-        return plan(["B1@3/2", "B1,cmp=1@0/2", NOCASE + "@0/2", "B1@2^" + L_DEEP, "B1@2^" + L_TOMB])
+        return plan(["B1@3/2", "B1,cmp=1@0/2", NOCASE + "@0/2", "B1@2^" + L_DEEP, "B1@2^" + L_TOMB, "B1,mof=11@1^" + L_DEEP])
     return plan(["B1@4/3", "B1,cmp=1@3/3", NOCASE + "@3/3", NOCASE + "@2^P0.1 F P1.1 F P3.1 P4.1", "B1,snappy=1,bloom=1,mmap=0@3/2", "B2@2/2", "B1@3^" + L_DEEP, "B1@3^" + L_TOMB,
-                 "B1@3^I " + L_DEEP, "B1,cmp=1@2^" + L_DEEP, "B1@2^" + L_SNAP])
+                 "B1@3^I " + L_DEEP, "B1,cmp=1@2^" + L_DEEP, "B1@2^" + L_SNAP, "B1,mof=11@2^I " + L_DEEP])
 
 
 def c13_plan(tier):
     if tier == "quick":
-        return plan(["B1@4/3", "B1,reuse=1@0/2", "B1@2^I " + L_DEEP, "B1@2^" + L_BIG])
+        return plan(["B1@4/3", "B1,reuse=1@0/2", "B1@2^I " + L_DEEP, "B1@2^" + L_BIG, "B1,mof=11@1^I " + L_DEEP])
     return plan(["B1@5/4", "B1,reuse=1@4/3", "B1,snappy=1,mmap=0@3/3", "B2@3/2", "B1@3^I " + L_DEEP, "B1@3^" + L_BIG,
                  "B1@3^I " + L_SNAP, "B1,reuse=1@3^" + L_DEEP])
 
